@@ -407,7 +407,9 @@ def provoke(res, V, h, value, extract, kind, T, ctx, label):
             r2 = e1.outcome(D, r[1])
             if r2[0] == "exc":
                 lm = library_made(r2[1])
-                V("library-made-error" if lm else "roundtrip-raised", (lm or type(r2[1]).__name__).split(":")[0],
+                # the VALID document failed (the error paths below are a separate matter: F-CLASS-NOT-MODULE-ATTRIBUTE covers
+                # the message-building code of dataclass kinds, not their conversion)
+                V("library-made-error-on-valid-input" if lm else "roundtrip-raised", (lm or type(r2[1]).__name__).split(":")[0],
                   f"{label} {ep} decode({r[1]!r:.100}): {lm or repr(r2[1])[:200]}")
                 continue
             try:
